@@ -38,6 +38,16 @@ WellFormedTl(tl, G) ==
     /\ \A k \in 1..Len(tl)-1 : SnapLt(tl[k].m, tl[k].b, tl[k+1].m, tl[k+1].b)
     /\ (Seated(tl) \/ ConstMet(tl))
 
+(* the same, but a change may sit on the position of the one before it (a tempo overridden on the spot: the later *)
+(* one is in force from there on); SegOfSnap / SegOfTicks already pick the last change at or before a point     *)
+WellFormedTlDup(tl, G) ==
+    /\ Len(tl) >= 1 /\ tl[1].m = 0 /\ tl[1].b = 0
+    /\ \A k \in DOMAIN tl : tl[k].bl > 0 /\ tl[k].bl % G = 0 /\ tl[k].met >= 1
+                            /\ tl[k].b >= 0 /\ tl[k].b < tl[k].met * G
+    /\ \A k \in 1..Len(tl)-1 : SnapLe(tl[k].m, tl[k].b, tl[k+1].m, tl[k+1].b)
+    /\ (Seated(tl) \/ ConstMet(tl))
+HasDup(tl) == \E k \in 1..Len(tl)-1 : tl[k].m = tl[k+1].m /\ tl[k].b = tl[k+1].b
+
 (* position (1/G beats, counted from the first change) of (m, b) as seen from segment k *)
 RECURSIVE AbsPos(_, _, _)
 AbsPos(tl, G, k) ==
